@@ -363,3 +363,59 @@ Proof.
   rewrite (Z.leb_antisym 1 (pr_h_mindep P)), (Z.ltb_antisym 0 (pr_h_fee P)).
   destruct (1 <? pr_h_mindep P), (0 <=? pr_h_fee P); reflexivity.
 Qed.
+
+(* ---- time checks and ticket payload validation with the block time (sdk.Context is its BlockTime().Unix()) ------------------------------------ *)
+Lemma gen_validateMarketTS now st en : K__validateMarketTS now st en = market_ts_ok now st en.
+Proof. unfold K__validateMarketTS, market_ts_ok. destruct (en <=? now); [reflexivity|]. destruct ((en <=? st) || (st =? 0)); reflexivity. Qed.
+(* the two guards of market_update that come from the ticket payload *)
+Lemma gen_update_Validate uid st en status now :
+  K_MarketUpdateTicketPayload_Validate {| G_MarketUpdateTicketPayload_UID := uid; G_MarketUpdateTicketPayload_StartTS := st;
+      G_MarketUpdateTicketPayload_EndTS := en; G_MarketUpdateTicketPayload_Status := status |} now
+  = status_ai status && market_ts_ok now st en.
+Proof.
+  unfold K_MarketUpdateTicketPayload_Validate, status_ai, MK_ACTIVE, MK_INACTIVE.
+  cbn [G_MarketUpdateTicketPayload_Status G_MarketUpdateTicketPayload_StartTS G_MarketUpdateTicketPayload_EndTS].
+  rewrite gen_validateMarketTS. destruct ((status =? 1) || (status =? 2)); reflexivity.
+Qed.
+(* the payload guards of market_resolve (identifiers are integers, the invalid spellings the negative ones) *)
+Lemma gen_resolution_Validate uid rts winners status :
+  K_MarketResolutionTicketPayload_Validate
+    {| G_MarketResolutionTicketPayload_UID := uid; G_MarketResolutionTicketPayload_ResolutionTS := rts;
+       G_MarketResolutionTicketPayload_WinnerOddsUIDs := winners; G_MarketResolutionTicketPayload_Status := status |}
+  = status_resolved status && negb ((status =? MK_DECLARED) && (1 <? zlen winners)) && negb (negb (status =? MK_DECLARED) && (0 <? zlen winners))
+    && negb (rts =? 0) && negb (uid <? 0) && negb ((status =? MK_DECLARED) && (zlen winners <? 1)) && forallb (fun o => 0 <=? o) winners.
+Proof.
+  unfold K_MarketResolutionTicketPayload_Validate, status_resolved, MK_CANCELED, MK_ABORTED, MK_DECLARED.
+  cbn [G_MarketResolutionTicketPayload_Status G_MarketResolutionTicketPayload_ResolutionTS G_MarketResolutionTicketPayload_WinnerOddsUIDs
+       G_MarketResolutionTicketPayload_UID].
+  match goal with |- context [kfold _ _ ?f] => set (F := f) end.
+  assert (Hstop : forall l r, fold_left F l (r, true) = (r, true)).
+  { induction l as [|x l IH]; intros r; cbn [fold_left]; [reflexivity|apply IH]. }
+  assert (Hrun : forall l, kfold (None, false) l F = if forallb (fun o => 0 <=? o) l then (None, false) else (Some false, true)).
+  { unfold kfold. induction l as [|x l IH]; cbn [fold_left forallb]; [reflexivity|].
+    unfold F at 2. cbv beta iota. destruct (0 <=? x); cbn [negb andb]; [exact IH|apply Hstop]. }
+  rewrite !Hrun. unfold klen, zlen. rewrite (Z.ltb_antisym 0 uid).
+  destruct (status =? 3), (status =? 4), (status =? 5), (1 <? Z.of_nat (length winners)), (0 <? Z.of_nat (length winners)), (rts =? 0),
+    (0 <=? uid), (Z.of_nat (length winners) <? 1), (forallb (fun o => 0 <=? o) winners); reflexivity.
+Qed.
+
+(* subaccount keeper sumLockedBalance: refused when an unlock time lies before the block time, else the sum *)
+Definition glb_of (l : Z * Z) : G_LockedBalance := {| G_LockedBalance_UnlockTS := fst l; G_LockedBalance_Amount := snd l |}.
+Lemma gen_sumLockedBalance now ls : K__sumLockedBalance now (map glb_of ls) = sum_locks now ls.
+Proof.
+  unfold K__sumLockedBalance, sum_locks.
+  match goal with |- context [kfold _ _ ?f] => set (F := f) end. unfold kfold.
+  assert (Hstop : forall l a r, fold_left F l (a, r, true) = (a, r, true)).
+  { induction l as [|x l IH]; intros a r; cbn [fold_left]; [reflexivity|apply IH]. }
+  assert (Hrun : forall l a, fold_left F (map glb_of l) (a, None, false) =
+            if existsb (fun l => fst l <? now) l then (fst (fst (fold_left F (map glb_of l) (a, None, false))), Some None, true)
+            else (a + zsum (map snd l), None, false)).
+  { induction l as [|x l IH]; intros a; cbn [map fold_left existsb zsum].
+    - f_equal. f_equal. lia.
+    - assert (HF : F (a, None, false) (glb_of x) = if fst x <? now then (a, Some None, true) else (a + snd x, None, false)).
+      { unfold F. cbv beta iota. cbn [glb_of G_LockedBalance_UnlockTS G_LockedBalance_Amount]. destruct (fst x <? now); reflexivity. }
+      rewrite HF. destruct (fst x <? now); cbn [orb].
+      + rewrite Hstop. reflexivity.
+      + rewrite IH. destruct (existsb (fun l0 => fst l0 <? now) l); [reflexivity|]. f_equal. f_equal. lia. }
+  rewrite Hrun. destruct (existsb (fun l => fst l <? now) ls); [reflexivity|]. cbn [Z.add]. reflexivity.
+Qed.
